@@ -92,6 +92,10 @@ class World:
         for r_ in reversed(getattr(self, "_restore_clocks", [])):
             r_()
         self._restore_clocks = []
+        if hasattr(self, "_real_getpid"):
+            import os
+            os.getpid = self._real_getpid
+            del self._real_getpid
 
     def inner_clients(self):
         """Every pymemcache Client object that may own a socket (for leak accounting)."""
@@ -123,6 +127,16 @@ class World:
         name, args, kwargs = op[0], op[1], (op[2] if len(op) > 2 else {})
         if name == "advance":
             self.clock.advance(args[0])
+            out = ("ret", None)
+            self.outcomes.append(out)
+            return out
+        if name == "pidchange":
+            # the process is now a forked child: same objects, another pid (restored when the world is closed)
+            import os
+            if not hasattr(self, "_real_getpid"):
+                self._real_getpid = os.getpid
+            pid = os.getpid() + 1
+            os.getpid = lambda: pid
             out = ("ret", None)
             self.outcomes.append(out)
             return out
